@@ -1,6 +1,6 @@
 import FlytModel.Generated.IR
 import FlytModel.Expected.IR
-/-! The translation of `Run` from the CURRENT source is, term for term, the IR the refinement theorems are about. -/
+/-! The translation of `Run` from the CURRENT source is, term for term, the expected IR. -/
 namespace Flyt.Tie
 theorem Run : Flyt.Generated.IR.Run = Flyt.Expected.IR.Run := rfl
 end Flyt.Tie
